@@ -6,6 +6,7 @@ set -u
 PROP=$1; OUT=$2; DEMODIR=$3; PKGS=$4
 GOTC=/root/go/pkg/mod/golang.org/toolchain@v0.0.1-go1.23.8.linux-amd64/bin
 export PATH="$GOTC:$PATH" GOTOOLCHAIN=local GOFLAGS=-mod=mod GOPROXY=off
+if [ -n "$(git -C /repo status --porcelain)" ]; then echo "seedcheck: /repo has uncommitted changes (they would be wiped by the final checkout): commit or stash them first"; exit 2; fi
 W=/tmp/seedv-$PROP-$$
 git -C /repo worktree add -q --detach $W HEAD || exit 2
 cd $W
